@@ -82,6 +82,16 @@ theorem lru_recency (c : Cache K V) (k : K) (v : V) :
    fun e h => ⟨(pop_least_recent sz c e h).1, (pop_least_recent sz c e h).2.2⟩,
    fun h => (pop_empty sz c h).1⟩
 
+/-- eviction is minimal ("least-recently-used *size-bounded*" cache, not an over-eager one): an
+    evicting insert whose result fits the capacity drops nothing, and in general every entry the
+    eviction loop removes is the tail of an intermediate cache that was over its capacity -/
+theorem lru_evicts_only_when_over (c : Cache K V) (k : K) (v : V) :
+    ((insertHelper sz c k v).size ≤ (insertHelper sz c k v).capacity → insert sz c k v = insertHelper sz c k v)
+    ∧ (insert sz c k v = insertHelper sz c k v ∨
+       ∃ c' : Cache K V, c'.size > c'.capacity ∧ c'.entries <+: (insertHelper sz c k v).entries
+         ∧ insert sz c k v = removeLru sz c') :=
+  ⟨insert_fits sz c k v, evict_minimal sz _ _⟩
+
 /-- the accounted size exceeds the capacity only by entries inserted with eviction disabled:
     after every operation sequence on a fresh cache, `size ≤ capacity +` the sizes handed to
     `insert_no_evict` since the last evicting `insert` -/
@@ -93,6 +103,8 @@ theorem size_exceeds_capacity_only_by_no_evict (cap : Nat) (ops : List (Op K V))
 example : Inv (fun v : Nat => v) (new 5 : Cache Nat Nat) := inv_new _ 5
 example : (run (fun v : Nat => v) (new 5 : Cache Nat Nat)
     [.insert 1 3, .insert 2 2, .lookup 1, .insert 3 2]).entries = [(3, 2), (1, 3)] := by decide
+/-- an insert that fits keeps every entry (capacity 5, sizes 3 + 2) -/
+example : (run (fun v : Nat => v) (new 5 : Cache Nat Nat) [.insert 1 3, .insert 2 2]).entries = [(2, 2), (1, 3)] := by decide
 /-- overwriting does not refresh recency: key `1`, overwritten last, is still the one evicted -/
 example : (run (fun v : Nat => v) (new 5 : Cache Nat Nat)
     [.insert 1 2, .insert 2 2, .insert 1 1, .insert 3 3]).entries = [(3, 3), (2, 2)] := by decide
@@ -350,6 +362,7 @@ end Blue.Props.C18
 #print axioms Blue.Props.C18.lookup_hit
 #print axioms Blue.Props.C18.lru_map_semantics
 #print axioms Blue.Props.C18.lru_recency
+#print axioms Blue.Props.C18.lru_evicts_only_when_over
 #print axioms Blue.Props.C18.size_exceeds_capacity_only_by_no_evict
 #print axioms Blue.Props.C18.waitlist_inv_run
 #print axioms Blue.Props.C18.waitlist_inv_run_source
